@@ -128,24 +128,25 @@ def renderGrid (n : Int) : Str :=
 def isNd (c : Nat) : Bool :=
   AsyncFix.Generated.UnicodeNd.ranges.any fun r => r.1 ≤ c && c ≤ r.2
 
-/-! ### `RE_CLORD_ROOT = re.compile(r"^(.+)--(\d+)$", re.MULTILINE)`, used with `.match`
+/-! ### `RE_CLORD_ROOT = re.compile(r"(.+)--(\d+)\Z", re.DOTALL)`, used with `.match`
 
-A backtracking matcher specialised to this pattern.  `match` anchors at position 0, where `^`
-holds; `.` matches everything but `\n` (10); `$` with MULTILINE holds at the end of the text and
-before every `\n`; both `+` are greedy and give characters back one at a time. -/
+A backtracking matcher specialised to this pattern.  `match` anchors at position 0; with DOTALL `.`
+matches every character; `\Z` holds only at the end of the text; both `+` are greedy and give
+characters back one at a time. -/
 
-def atEol : Str → Bool
+/-- `\Z` -/
+def atEnd : Str → Bool
   | [] => true
-  | c :: _ => c == 10
+  | _ :: _ => false
 
-/-- `(\d+)$` on `s`: try `n`, `n-1`, …, 1 digits (`n` = length of the greedy digit run) -/
-def digitsThenEol (s : Str) : Nat → Bool
+/-- `(\d+)\Z` on `s`: try `n`, `n-1`, …, 1 digits (`n` = length of the greedy digit run) -/
+def digitsThenEnd (s : Str) : Nat → Bool
   | 0 => false
-  | n + 1 => atEol (s.drop (n + 1)) || digitsThenEol s n
+  | n + 1 => atEnd (s.drop (n + 1)) || digitsThenEnd s n
 
-/-- `--(\d+)$` at the current position -/
+/-- `--(\d+)\Z` at the current position -/
 def tailMatches : Str → Bool
-  | a :: b :: rest => a == 45 && b == 45 && digitsThenEol rest (rest.takeWhile isNd).length
+  | a :: b :: rest => a == 45 && b == 45 && digitsThenEnd rest (rest.takeWhile isNd).length
   | _ => false
 
 /-- `(.+)` then the tail: try `n`, `n-1`, …, 1 characters for group 1 -/
@@ -154,8 +155,7 @@ def tryDot (s : Str) : Nat → Option Str
   | n + 1 => if tailMatches (s.drop (n + 1)) then some (s.take (n + 1)) else tryDot s n
 
 /-- `RE_CLORD_ROOT.match(s)`: group 1 of the match, if any -/
-def reMatchRoot (s : Str) : Option Str :=
-  tryDot s (s.takeWhile (· != 10)).length
+def reMatchRoot (s : Str) : Option Str := tryDot s s.length
 
 /-- `FIXNewOrderSingle.clord_root` -/
 def clordRoot (s : Str) : Str := (reMatchRoot s).getD s
